@@ -158,4 +158,13 @@ example : (match Spec.attitude 3 with | .mk _ gs _ => gs.map (fun g => match g.2
     (match Spec.mapProjectionOther with | .mk _ gs _ => gs.map Prod.fst) =
       ["conversion_coefficients", "corner_points", "ellipsoid_parameters", "general_information"] := by decide
 
+/-- non-vacuity of `attitude`: a 136-byte attitude record with one point (written by the independent synthesiser) parses, and the
+    pipeline yields the two sections with seven one-entry variables each -/
+def witnessAttitude : Bytes := [245, 53, 16, 113, 79, 93, 180, 125, 0, 0, 0, 136, 32, 32, 32, 49, 32, 49, 55, 48, 50, 51, 50, 50, 56, 51, 50, 55, 49, 32, 32, 32, 32, 32, 32, 48, 49, 32, 32, 32, 32, 32, 32, 32, 32, 32, 50, 49, 48, 50, 50, 46, 52, 51, 32, 32, 32, 32, 32, 32, 45, 48, 46, 48, 51, 53, 55, 57, 32, 32, 45, 53, 46, 52, 69, 45, 50, 52, 32, 32, 32, 32, 32, 32, 32, 48, 49, 32, 32, 32, 32, 32, 32, 49, 32, 32, 32, 32, 32, 32, 32, 32, 32, 49, 69, 43, 48, 50, 45, 48, 46, 51, 51, 51, 32, 32, 32, 32, 32, 32, 32, 32, 32, 32, 32, 32, 32, 32, 32, 32, 45, 52, 101, 45, 51, 49]
+
+set_option maxRecDepth 100000 in
+example : ((parseRecord Gen.attitudeRecord witnessAttitude).toOption.bind (fun v => (transformAttitude realLeafFns2 v.toPVal).map
+    (fun g => match g with | .mk _ gs _ => gs.map (fun sg => (sg.1, match sg.2 with | .mk vs _ _ => vs.length))))) =
+    some [("attitude", 7), ("rates", 7)] := by decide +kernel
+
 end Alos2.C04
